@@ -74,22 +74,35 @@ class Core:
                 return
         raise AnalysisError("HeaderItem.__init__ has no recognisable buffer parameter")
 
-    def construct(self, pt, decisions):
-        """-> (interp, outcome) ; outcome = ('ok',) | ('raise', name, node)"""
+    def construct(self, pt, decisions, prior=None):
+        """-> (interp, outcome) ; outcome = ('ok',) | ('raise', name, node) | ('skip',).
+        With `prior`, a header with the values `prior` is constructed first in the same interpreter (same class-level
+        and module-level state); the path is skipped unless that first construction succeeds."""
         P0 = self.P0
         cache = {}
-        magic = bytes(pt["magic"])
+        cur = {"pt": prior if prior is not None else pt}
         adler_regions = []
 
         def field(it, abs_off, size, code, order):
+            pt = cur["pt"]
+            magic = bytes(pt["magic"])
             rel = abs_off - P0
             key = (rel, size, code, order)
             if key in cache:
                 return cache[key]
             v = None
-            if rel == OFF_MAGIC and size == 8 and code == "s":
-                v = magic
-                it.watch_obj(v, "magic")
+            if 0 <= rel and rel + size <= 8:
+                # any layout of the eight magic bytes: the slot gets exactly the bytes of the abstract point
+                raw = magic[rel:rel + size]
+                if code in "sp":
+                    v = magic if (rel == 0 and size == 8) else raw
+                else:
+                    try:
+                        v = struct.unpack(order + code, raw)[0]
+                    except struct.error as e:
+                        raise NotEvaluable("magic bytes read as %r: %s" % (code, e))
+                if isinstance(v, bytes):
+                    it.watch_obj(v, "magic")
             elif rel in (OFF_CHECKSUM, OFF_HEADER_SIZE, OFF_ENDIAN) and size == 4:
                 if order != "<" or code not in "IL":
                     raise NotEvaluable("header word at offset %d is read as %r%s, not as a little-endian unsigned 32-bit value" % (rel, order, code))
@@ -107,20 +120,31 @@ class Core:
             if len(args) < 1 or not isinstance(args[0], Region):
                 raise NotEvaluable("adler32 over something that is not read from the buffer")
             adler_regions.append((args[0].start - P0, args[0].size, node, it.qual()))
-            return Role(pt["adler"], "adler", self.rec["adler"])
+            return Role(cur["pt"]["adler"], "adler", self.rec["adler"])
 
         it = Interp(self.ctx.repo, field, {"zlib.adler32": adler}, decisions)
         it.adler_regions = adler_regions
-        buf = BufferV(Role(pt["nbytes"], "nbytes", self.rec["nbytes"]), pos=P0)
-        args = [Obj(self.hdr.cls)]
-        for p in self.hdr.params()[1:]:
-            args.append(buf if p == self.buff else (Obj(None, p) if p != "size" else 0))
-        self.n_runs += 1
-        try:
-            it.call_function(FuncV(self.hdr), args, {})
-            out = ("ok",)
-        except PyRaise as e:
-            out = ("raise", e.name, e.node)
+
+        def one(p_):
+            cur["pt"] = p_
+            cache.clear()
+            buf = BufferV(Role(p_["nbytes"], "nbytes", self.rec["nbytes"]), pos=P0)
+            args = [Obj(self.hdr.cls)]
+            for p in self.hdr.params()[1:]:
+                args.append(buf if p == self.buff else (Obj(None, p) if p != "size" else 0))
+            self.n_runs += 1
+            try:
+                it.call_function(FuncV(self.hdr), args, {})
+                return ("ok",)
+            except PyRaise as e:
+                return ("raise", e.name, e.node)
+        if prior is not None:
+            first = one(prior)
+            if first[0] != "ok":
+                return it, ("skip",)
+            it.trace.append(("choice", "a valid file was parsed before in the same process", "HeaderItem.__init__", True))
+            del adler_regions[:]
+        out = one(pt)
         for r, hs in it.holders.items():
             self.holders.setdefault(r, set()).update(hs)
         return it, out
@@ -131,19 +155,19 @@ class Core:
         except NotEvaluable as e:
             raise AnalysisError("HeaderItem.__init__ left the interpretable fragment: %s" % e)
 
-    def outcomes(self, pt):
+    def outcomes(self, pt, prior=None):
         """all (interp, outcome) over the choice paths of one abstract point"""
         res = []
         stack = [[]]
         while stack:
             prefix = stack.pop()
             try:
-                it, out = self.construct(pt, prefix)
+                it, out = self.construct(pt, prefix, prior)
             except NotEvaluable as e:
                 raise AnalysisError("HeaderItem.__init__ left the interpretable fragment: %s" % e)
             res.append((it, out))
-            if len(res) > 64:
-                raise AnalysisError("more than 64 paths over unconstrained header fields")
+            if len(res) > 400:
+                raise AnalysisError("more than 400 paths over unconstrained header fields")
             for i in range(len(prefix), len(it.choices)):
                 stack.append(it.choices[:i] + [not it.choices[i]])
         return res
@@ -180,10 +204,16 @@ class Core:
         ctx = self.ctx
         ctx.count("guards")
         n_paths = 0
-        for desc, pt in points:
-            for it, out in self.outcomes(pt):
+        step = max(1, len(points) // 12)
+        # the same wrong value again, after a valid file was parsed by the same process (class-/module-level state):
+        # a sample of the points plus every point that keeps all stored header fields of that valid file (only the content differs)
+        hist = {id(p): (d, p) for d, p in points[::step]}
+        hist.update({id(p): (d, p) for d, p in points if all(p[k] == self.VALID[k] for k in p if k != "adler")})
+        runs = [(desc, pt, None) for desc, pt in points] + [(desc + " after a valid file was parsed in the same process", pt, self.VALID) for desc, pt in hist.values()]
+        for desc, pt, prior in runs:
+            for it, out in self.outcomes(pt, prior):
                 n_paths += 1
-                if out[0] == "raise" and out[1] in REJECT_EXC:
+                if out[0] == "skip" or (out[0] == "raise" and out[1] in REJECT_EXC):
                     continue
                 pd = self._path_desc(it)
                 if out[0] == "ok":
